@@ -26,9 +26,18 @@ def _strategy(draw):
     return spec
 
 
+@st.composite
+def _multires(draw):
+    """residue graphs with multi-residue (from_itp) blocks, also consecutive copies of one block:
+    the junction between two copies has no link and must be reported"""
+    spec = draw(gp.multires_case())
+    spec["half"] = "gen_params"
+    return spec
+
+
 def strategy(tier):
     from . import c10coords
-    return st.one_of(_strategy(), _strategy(), _strategy(), c10coords.strategy())
+    return st.one_of(_strategy(), _strategy(), _strategy(), _multires(), c10coords.strategy())
 
 
 def check(spec, ctx):
